@@ -358,6 +358,31 @@ Definition add_interface_cached (fl : flavour) (ns : N) (cached : list str) (nam
   guard (negb (str_in name cached)) ETopology ;;;
   new_interface fl name node_id (Some ns) itype pure.
 
+(* proposed_fixes/C09-8.patch: add_interface_sliver looks the parent up before it adds the ConnectionPoint node *)
+Definition new_interface_pc (fl : flavour) (name : str) (node_id : option N) (p : N)
+           (itype : option N) (pure : option exn) : M N :=
+  guard (negb (is_substrate fl && match node_id with None => true | Some _ => false end)) ETopology ;;;
+  id <- id_or_draw node_id ;;
+  match itype with
+  | None => raise ETopology
+  | Some ty =>
+      guard (name_ok rule_iface name) EValue ;;;
+      opt_raise pure ;;;
+      _ <- ask (fun g => find_node g p) ;;
+      m_add_node (mkNode id cCP name ty 0) ;;;
+      m_add_edge p rConnects id ;;;
+      ret id
+  end.
+
+(* NetworkService.add_interface on ANY handle (possibly a stale one of a removed service): the uniqueness check
+   uses the names cached in the handle, nothing is read from the graph before the Interface constructor.
+   `parent_check`: does the running library have C09-8 (read off the source of add_interface_sliver)? *)
+Definition add_interface_h (parent_check : bool) (fl : flavour) (ns : N) (cached : list str) (name : str)
+           (node_id : option N) (itype : option N) (pure : option exn) : M N :=
+  guard (negb (str_in name cached)) ETopology ;;;
+  if parent_check then new_interface_pc fl name node_id ns itype pure
+  else new_interface fl name node_id (Some ns) itype pure.
+
 (* the same through a handle obtained from the views just before the call *)
 Definition op_add_interface (fl : flavour) (ns : N) (name : str) (node_id : option N)
            (itype : option N) (pure : option exn) : M N :=
@@ -514,22 +539,44 @@ Definition op_add_switch (rollback : bool) (fl : flavour) (name : str) (node_id 
 (* NetworkService.peer(ns, kwargs)   network_service.py:409-424: a ServicePort on each of the two services
    (named '<self>-<other>' and '<other>-<self>', each checked against the interface names its handle cached
    when it was made, i.e. before the call) and an L2Path link between them - three steps. *)
-Definition op_peer (fl : flavour) (a b : N) (pure : option exn) : M unit :=
-  an <- ask (fun g => node_name g a) ;;
-  bn <- ask (fun g => node_name g b) ;;
-  ca <- ask (fun g => service_iface_names g a) ;;
-  cb <- ask (fun g => service_iface_names g b) ;;
+Definition op_peer_h (pc : bool) (fl : flavour) (a : N) (an : str) (ca : list str) (b : N) (bn : str) (cb : list str)
+           (pure : option exn) : M unit :=
   let n1 := an ++ dash ++ bn in
   let n2 := bn ++ dash ++ an in
-  i1 <- add_interface_cached fl a ca n1 None (Some tServicePort) pure ;;
+  i1 <- add_interface_h pc fl a ca n1 None (Some tServicePort) pure ;;
   (* fix 1e03994: each later step in a try whose handler removes the port made by the step before *)
   catch_any
-    (i2 <- add_interface_cached fl b cb n2 None (Some tServicePort) None ;;
+    (i2 <- add_interface_h pc fl b cb n2 None (Some tServicePort) None ;;
      catch_any
        (_ <- new_link fl (n1 ++ suffix_link) None (Some tL2Path) (Some [mkIface i1 n1; mkIface i2 n2]) None ;;
         ret tt)
        (fun e => remove_cp_and_links i2 ;;; raise e))
     (fun e => remove_cp_and_links i1 ;;; raise e).
+
+(* peer with a service handle of ANOTHER live topology: the other service's port is made in (and, by the inner
+   handler, removed from) that other topology - nothing of it touches this graph except that it draws an id;
+   the link is attempted in this topology, where the other port is unknown *)
+Definition op_peer_foreign (pc : bool) (fl : flavour) (a : N) (an : str) (ca : list str) (bn : str) (cb : list str)
+           (pure : option exn) : M unit :=
+  let n1 := an ++ dash ++ bn in
+  let n2 := bn ++ dash ++ an in
+  i1 <- add_interface_h pc fl a ca n1 None (Some tServicePort) pure ;;
+  catch_any
+    (guard (negb (str_in n2 cb)) ETopology ;;;
+     guard (negb (is_substrate fl)) ETopology ;;;
+     i2 <- draw ;;
+     guard (name_ok rule_iface n2) EValue ;;;
+     _ <- new_link fl (n1 ++ suffix_link) None (Some tL2Path) (Some [mkIface i1 n1; mkIface i2 n2]) None ;;
+     ret tt)
+    (fun e => remove_cp_and_links i1 ;;; raise e).
+
+(* through two handles made just now: names and cached interface names are what the graph shows *)
+Definition op_peer (fl : flavour) (a b : N) (pure : option exn) : M unit :=
+  an <- ask (fun g => node_name g a) ;;
+  bn <- ask (fun g => node_name g b) ;;
+  ca <- ask (fun g => service_iface_names g a) ;;
+  cb <- ask (fun g => service_iface_names g b) ;;
+  op_peer_h false fl a an ca b bn cb pure.
 
 (* ================================================================ calls on existing elements *)
 Definition rbind {A B} (r : res A) (k : A -> res B) : res B := match r with Ok a => k a | Err e => Err e end.
@@ -716,7 +763,7 @@ Inductive call :=
 | CAddNode (name : str) (node_id : option N) (ntype : option N) (pure : option exn)
 | CAddService (name : str) (node_id : option N) (nstype : option N) (ifs : list iface_h) (pure : option exn)
 | CAddNodeService (pn : N) (name : str) (node_id : option N) (nstype : option N) (pure : option exn)
-| CAddInterface (ns : N) (name : str) (node_id : option N) (itype : option N) (pure : option exn)
+| CAddInterface (parent_check : bool) (ns : N) (cached : list str) (name : str) (node_id : option N) (itype : option N) (pure : option exn)
 | CAddLink (name : str) (node_id : option N) (ltype : option N) (ifs : option (list iface_h)) (pure : option exn)
 | CAddComponent (precheck : bool) (pn : N) (name : str) (node_id : option N) (spec_given nic_ctype sub_ids_given : bool)
                 (cat : res comp_spec) (pure : option exn)
@@ -724,7 +771,8 @@ Inductive call :=
                (pure_ns : option exn) (ports : option (list fac_port)) (pure_single : option exn)
 | CAddSwitch (rollback : bool) (name : str) (node_id : option N) (d_ns : N) (d_intk : list N) (nstype : N)
              (pure_ns : option exn) (nports : nat) (pure_port : option exn)
-| CPeer (a b : N) (pure : option exn)
+| CPeer (parent_check : bool) (a : N) (an : str) (ca : list str) (b : N) (bn : str) (cb : list str) (pure : option exn)
+| CPeerForeign (parent_check : bool) (a : N) (an : str) (ca : list str) (bn : str) (cb : list str) (pure : option exn)
 | CRename (x kind : N) (new_name : str)
 | CSetProps (x : N) (pure : option exn) (new_rest : N)
 | CRemoveLink (name : str)
@@ -738,12 +786,13 @@ Definition run_call (fl : flavour) (c : call) : M unit :=
   | CAddNode n i t p => _ <- op_add_node fl n i t p ;; ret tt
   | CAddService n i t l p => _ <- op_add_service fl n i t l p ;; ret tt
   | CAddNodeService pn n i t p => _ <- op_add_node_service fl pn n i t p ;; ret tt
-  | CAddInterface ns n i t p => _ <- op_add_interface fl ns n i t p ;; ret tt
+  | CAddInterface pc ns ca n i t p => _ <- add_interface_h pc fl ns ca n i t p ;; ret tt
   | CAddLink n i t l p => _ <- op_add_link fl n i t l p ;; ret tt
   | CAddComponent pc pn n i a b c0 cat p => _ <- op_add_component pc fl pn n i a b c0 cat p ;; ret tt
   | CAddFacility n i a b k t p ports ps => _ <- op_add_facility fl n i a b k t p ports ps ;; ret tt
   | CAddSwitch rb n i a k t p np pp => _ <- op_add_switch rb fl n i a k t p np pp ;; ret tt
-  | CPeer a b p => op_peer fl a b p
+  | CPeer pc a an ca b bn cb p => op_peer_h pc fl a an ca b bn cb p
+  | CPeerForeign pc a an ca bn cb p => op_peer_foreign pc fl a an ca bn cb p
   | CRename x k n => op_rename x k n
   | CSetProps x p r => op_set_props x p r
   | CRemoveLink n => op_remove_link n
